@@ -40,7 +40,6 @@ META = {
 
 # generator exclusions named after findings: name -> (finding key, condition(lang, plat))
 FINDING_EXCLUSIONS = {
-    'oror': ('expr:5||7:unix64', lambda lang, plat: True),
     'cast-bool': ('expr:(_Bool)9:unix64', lambda lang, plat: True),
     'char-highbit': ("expr:'\\x80':aarch64", lambda lang, plat: plat.char_unsigned),
     'multichar': ("expr:'abc':avr", lambda lang, plat: plat.sizes['int'] == 2),
@@ -421,6 +420,27 @@ def pat_u64_complement(n, refs, lang, plat):
     return r is not None and r.unsigned and r.size >= 8 and r.value >= (1 << 63)
 
 
+def _cast_type(n):
+    return n.extra if n.k == 'cast' else (n.op if n.k == 'fcast' else (n.txt if n.k == 'ncast' else None))
+
+
+def pat_narrow_operands(n, refs, lang, plat):
+    """binary operator whose operands are both narrower than int and of different types: cppcheck converts one
+    operand's value to the other operand's narrow type instead of promoting both to int"""
+    if n.k != 'bin' or n.op == ',':
+        return False
+    cv = _child_vals(n, refs)
+    if not cv:
+        return False
+    isz = plat.sizes['int']
+    if cv[0].size >= isz or cv[1].size >= isz:
+        return False
+    if cv[0].unsigned != cv[1].unsigned or cv[0].size != cv[1].size:
+        return True
+    ts = [_cast_type(c) for c in n.ch]
+    return ts[0] != ts[1]
+
+
 def pat_lit(n, refs, lang, plat):
     return c09.pat_hex_literal(n, None, lang, plat) or c09.pat_octal_literal(n, None, lang, plat)
 
@@ -434,6 +454,7 @@ FINDING_PATTERNS = [
     ('truth-as-value', 'expr:sizeof(st1)+9:unix64', pat_truth_as_value),
     ('cast-char-negative', "expr:(char)-'\\r':unix64", pat_cast_char_negative),
     ('u64-complement', 'expr:~0xFFFFFFFFFFFFFFFF<=0:unix64', pat_u64_complement),
+    ('narrow-operands', 'expr:(unsignedchar)214:unix64 expr:(unsignedshort)65000:unix64 expr:(signedchar)254:unix64', pat_narrow_operands),
 ]
 
 
@@ -550,6 +571,10 @@ def check_unit(ctx, d, name, u, lang, plat, use_gcc, use_patterns=True):
                 continue
             tol = 1e-6 if any((x.k == 'leaf' and x.txt[-1:] in 'fF' and 'flt' in x.flags) or
                               (x.k == 'cast' and x.extra == 'float') for x in n.walk()) else 1e-10
+            if plat.sizes.get('double', 8) < 8:
+                # double is a 32-bit type on this platform (avr): the compiler rounds every operation to float
+                # precision; cppcheck computes in the host's double — compared with float precision (level_note)
+                tol = 1e-6
             cond = flt_cond(txt, v, tol)
             if cond is None:
                 ctx.count('dropped', 'value not representable in a probe')
@@ -662,6 +687,9 @@ def witnesses():
         ('unix64', 'c', B('+', I('0x100000001u'), I('0'))),
         ('msp430', 'c', B('+', I('0X100000000Lu'), I('0'))),
         ('unix64', 'c', B('<=', U('~', I('0xFFFFFFFFFFFFFFFF')), I('0'))),
+        ('unix64', 'c', B('+', CAST('signed char', I('1')), CAST('unsigned char', I('214')))),
+        ('unix64', 'c', B('+', CAST('short', I('1')), CAST('unsigned short', I('65000')))),
+        ('unix64', 'c', B('<', CAST('unsigned char', I('1')), CAST('signed char', I('254')))),
     ]
 
 
